@@ -211,6 +211,10 @@ func checkTotal(cd codec, in []byte) error {
 	}
 	_ = cd.parseStr(string(other))
 	_ = cd.parseStrB(other)
+	// ... also by calls whose input is not longer than this one (a recycled buffer of this call would fit them)
+	_ = cd.parseStr(strings.Repeat("#", len(in)))
+	_ = cd.parseStrB(bytes.Repeat([]byte("%"), len(in)/2))
+	_ = cd.parseStr(string(other[:len(other)/2]))
 	if s != keep {
 		return fmt.Errorf("%s ParseToString(%q): the returned string changed from %q to %q after a later call", cd.name, in, keep, s)
 	}
